@@ -21,3 +21,26 @@
 ;@heap envParent H_environment_Environment_Parent
 (define-fun envHere ((hv (Array Int Int)) (md (Array Int (Array Str Bool))) (e Int) (n Str)) Bool (select (select md (select hv e)) n))
 ;@heap envHere H_environment_Environment_Values MD_Str_Val
+; the same notions evaluated on an explicit object heap (e.g. the state after an event of the log)
+(define-fun envBoundIn ((hv (Array Int Int)) (hp (Array Int Int)) (md (Array Int (Array Str Bool))) (e Int) (n Str)) Bool (envBound hv hp md e n))
+;@heap envBoundIn H_environment_Environment_Values H_environment_Environment_Parent
+(define-fun envOwnerIn ((hv (Array Int Int)) (hp (Array Int Int)) (md (Array Int (Array Str Bool))) (e Int) (n Str)) Int (envOwner hv hp md e n))
+;@heap envOwnerIn H_environment_Environment_Values H_environment_Environment_Parent
+(define-fun envHereIn ((hv (Array Int Int)) (md (Array Int (Array Str Bool))) (e Int) (n Str)) Bool (select (select md (select hv e)) n))
+;@heap envHereIn H_environment_Environment_Values
+(define-fun envAllocated ((a (Array Int Bool)) (e Int)) Bool (select a e))
+;@heap envAllocated A_H_environment_Environment
+; whole-heap views of the current state
+(define-fun curMD ((x (Array Int (Array Str Bool)))) (Array Int (Array Str Bool)) x)
+;@heap curMD MD_Str_Val
+(define-fun curMV ((x (Array Int (Array Str Val)))) (Array Int (Array Str Val)) x)
+;@heap curMV MV_Str_Val
+(define-fun curMC ((x (Array Int Int))) (Array Int Int) x)
+;@heap curMC MC_Str_Val
+(define-fun curEV ((x (Array Int (Array Int Val)))) (Array Int (Array Int Val)) x)
+;@heap curEV E_Val
+(define-fun emptyDom () (Array Str Bool) ((as const (Array Str Bool)) false))
+; a scope table gets one more binding / a binding is overwritten
+(define-fun mdDefine ((md (Array Int (Array Str Bool))) (t Int) (n Str)) (Array Int (Array Str Bool)) (store md t (store (select md t) n true)))
+(define-fun mvDefine ((mv (Array Int (Array Str Val))) (t Int) (n Str) (v Val)) (Array Int (Array Str Val)) (store mv t (store (select mv t) n v)))
+(define-fun mcDefine ((mc (Array Int Int)) (md (Array Int (Array Str Bool))) (t Int) (n Str)) (Array Int Int) (store mc t (+ (select mc t) (ite (select (select md t) n) 0 1))))
